@@ -72,9 +72,13 @@ fn test_struct_keywords() {
             #[phantom_data]
             struct PhantomFoo {}
 
+            #[one_zst]
+            struct ZstFoo {}
+
             #[upstream]
             #[fundamental]
             #[phantom_data]
+            #[one_zst]
             struct Bar<T> {}
         }
     );
